@@ -3689,6 +3689,10 @@ where
                         Some(track_offset) => {
                             // work-in-progress track has offset,
                             // so deduct that offset from this index point's
+                            // (an index point can't lie before its track's start)
+                            if offset.into() < (*track_offset).into() {
+                                return Err(CuesheetError::IndexPointsOutOfSequence);
+                            }
 
                             cuesheet::Index {
                                 number,
